@@ -31,6 +31,10 @@ fn tally_for(i: usize) -> TallyMirror {
     }
 }
 
+fn gcd(a: usize, b: usize) -> usize {
+    if b == 0 { a } else { gcd(b, a % b) }
+}
+
 fn counter_for(i: usize) -> u64 {
     1000 + 37 * i as u64 * i as u64 + i as u64
 }
@@ -609,6 +613,52 @@ fn main() {
             r.sample(i, || inputs_json(&inp));
         });
     }
+    if which == "all" || which == "injected" {
+        // (b) larger collections (the default sample count is 100): n distinct or pairwise tied durations
+        // in every arrangement of a family of orders - ascending, descending, organ pipe, and every
+        // stride permutation i -> i * k mod n (k coprime to n) - each sample with its own tally and
+        // counter value, so that the figures under fastest / slowest / median must follow the sample
+        let mut ns: Vec<usize> = (6..=40).collect();
+        ns.extend([63, 64, 99, 100, 101, 128]);
+        if cli.thorough {
+            ns.extend(41..=62);
+            ns.extend([200, 255, 256, 257]);
+        }
+        let mut large: Vec<(usize, usize, u8)> = Vec::new(); // (n, order id, value mode)
+        for &n in &ns {
+            let strides: Vec<usize> = (1..n).filter(|k| gcd(*k, n) == 1).collect();
+            for order in 0..strides.len() + 2 {
+                for mode in [0u8, 1] {
+                    large.push((n, order, mode));
+                }
+            }
+        }
+        par_for(large.len() as u64, |i| {
+            if !cli.mine(i) {
+                return;
+            }
+            let (n, order, mode) = large[i as usize];
+            let strides: Vec<usize> = (1..n).filter(|k| gcd(*k, n) == 1).collect();
+            let rank: Vec<usize> = if order < strides.len() {
+                (0..n).map(|j| j * strides[order] % n).collect()
+            } else if order == strides.len() {
+                (0..n).rev().collect()
+            } else {
+                // organ pipe: 0, 2, 4, ..., 5, 3, 1
+                (0..n).map(|j| if j < (n + 1) / 2 { 2 * j } else { 2 * (n - 1 - j) + 1 }).collect()
+            };
+            let durations: Vec<u128> = rank.iter().map(|&k| 1000 + 37 * (if mode == 0 { k } else { k / 2 }) as u128).collect();
+            let inp = Inputs {
+                sample_size: 3,
+                tallies: (0..n).map(|k| Some(tally_for(k))).collect(),
+                durations,
+                counters: [Some(Ok((0..n).map(counter_for).collect())), None, None, Some(Err(5))],
+            };
+            check_injected(&r, &inp);
+            r.case(n as u64 + 1);
+        });
+        r.force_sample(json!({"large_collections": large.len(), "sizes": ns}));
+    }
     if which == "all" || which == "loop" {
         let cases = loop_cases(cli.thorough);
         for (i, c) in cases.iter().enumerate() {
@@ -619,6 +669,7 @@ fn main() {
         r.force_sample(json!({"loop_cases": cases.len()}));
     }
     r.set_bounds(json!({
+        "large_collections": "n in 6..=40, 63, 64, 99, 100, 101, 128 (thorough: ..=62, 200, 255..257) x {ascending via strides, descending, organ pipe, every stride permutation} x {distinct, pairwise tied}",
         "injected": {"durations_ps": DURS.iter().map(|d| d.to_string()).collect::<Vec<_>>(), "max_len": 5, "sample_sizes": SIZES, "tally_presence_masks": MASKS, "counter_modes": if cli.thorough {9} else {3}},
         "loop": {"entries": 5, "cost_scripts": 7, "sample_counts": [0,1,2,3,4], "sample_sizes": [1,2,3,"tuned"], "overheads_ps": [0,3], "alloc_scripts": 3, "counter_setups": 6}
     }));
